@@ -11,7 +11,7 @@ func VsH_LockDiscipline() {
 	kmc, a := vsWallet(pass, "old")
 	vsTrack(kmc, "manager")
 	vsTrack(a, "addrmgr")
-	switch vsFork(13, "method") {
+	switch vsFork(17, "method") {
 	case 0:
 		kmc.IsLocked()
 	case 1:
@@ -38,6 +38,14 @@ func VsH_LockDiscipline() {
 		a.ListAddresses()
 	case 12:
 		a.CountAddresses()
+	case 13:
+		kmc.ExportKeystore(vsAcct, pass)
+	case 14:
+		kmc.Unlock(pass)
+	case 15:
+		a.ManagedAddresses()
+	case 16:
+		a.Address("x")
 	}
 	vsAssert(!vsAnyLockHeld(), "all-locks-released-on-return")
 	vsReach("returned")
